@@ -1,3 +1,5 @@
+"""Regenerates coq/Properties_C11.v: the statements are printed by Coq (`Check <lemma>`), not typed by hand.
+usage: cd props/C11/coq && make (so that GrowModel.vo exists) && python3 ../tools/genprops.py   (writes ./Properties_C11.v)"""
 import subprocess, re
 names = [
  ('relocate_interrupted_inv', """relocate_interrupted_inv.  For EVERY hash function h, bucket capacity, probing scheme, growth policy satisfying kind_ok,
@@ -16,19 +18,21 @@ names = [
    answer by membership, traversal is a duplicate-free permutation of the set, GetCount is its size.  Hence every
    inserted-and-not-removed key is found, in every intermediate state."""),
  ('failed_op_changes_nothing', "strong guarantee in the model: an Insert that throws (table full / bad_alloc / hash exception / MOMO_CHECK), a failed Reserve, an Insert of a present key and a Remove of an absent key leave the whole state unchanged."),
- ('grow_refused_insert_succeeds_unless_path_full', """grow_refused_insert_succeeds_unless_path_full.  When the table has to grow (mCount >= mCapacity), the new capacity check
-   passes and the memory manager REFUSES the new bucket array: the insertion of a new key succeeds on the existing newest
+ ('grow_refused_insert_succeeds_unless_path_full', """grow_refused_insert_succeeds_unless_path_full.  When the table has to grow (mCount >= mCapacity) and the memory manager
+   REFUSES the new bucket array (the size loop of pvAddGrow always ends: kind_ok3): the insertion of a new key succeeds on the existing newest
    table (capacity and number of generations not increased, Inv kept, the key is in) as soon as SOME bucket among the
    bucketCount probes of the key's path is not full; it throws "Hash table is full" with the state unchanged exactly when
    every one of them is full."""),
  ('later_ops_complete_migration_thm', """later_ops_complete_migration.  From any state satisfying Inv whose capacity does not exceed the physical size of the
-   newest table, failure-free insertions of fresh keys never terminate the process and never fail except through
-   MOMO_CHECK(newCapacity > mCount); if they all succeed then after more than max(0, mCapacity - mCount) of them (at the
-   latest at the next growth) the chain is back to ONE generation, and it stays single.  Needs kind_ok2: the probe sequence
-   reaches every bucket (C13) and CalcCapacity never exceeds the physical size."""),
+   newest table (true for every reachable state: next theorem), failure-free insertions of fresh keys never terminate the
+   process and ALL succeed; after more than max(0, mCapacity - mCount) of them (at the latest at the next growth) the chain
+   is back to ONE generation, and it stays single.  Needs kind_ok2 (the probe sequence reaches every bucket (C13),
+   CalcCapacity never exceeds the physical size) and kind_ok3 (capacities grow with the table size)."""),
  ('reachable_cap_ok', "the premise CapOk of the previous theorem (mCapacity <= physical size of the newest table) holds in every state reachable from the empty container that has a table, for every history and failure schedule."),
+ ('insert_never_fails_check', "since the fix of pvAddGrow (size loop instead of MOMO_CHECK(newCapacity > mCount)): in every reachable state, whatever failed before, no insertion ends in a capacity-check failure (model result RCheck), i.e. an overloaded table can always try to grow again."),
  ('concrete_kind_ok', "the hypotheses kind_ok hold for the concrete kinds used by the extracted model (mask start index, linear and triangular probing, exact max-probe bound, both growth policies)."),
  ('linear_kind_ok2', "kind_ok2 holds for linear probing (LimP4 / One) with both capacity policies (for triangular probing the coverage part is theorem C13_open2n2_probe_sequence_complete)."),
+ ('concrete_kind_ok3', "kind_ok3 holds for both capacity policies (HashBucketBase: 5/8, 3/2, 2 per bucket; open addressing: 11/12 and 13/14 of the slots)."),
  ('cfg_all_histories', "the two main theorems instantiated at cfg_run = exactly the extracted function that is compared with the real momo containers on every run."),
  ('ex_three_generations', "non-vacuity: a concrete history (Open2N2<3>, refused growth + interrupted migrations) reaches THREE coexisting generations holding 4, 6 and 4 items; all 14 keys are found."),
  ('ex_migration_completes', "non-vacuity: one more failure-free insertion brings that chain back to a single generation with all items; Remove works."),
